@@ -75,26 +75,130 @@ def cases(rng, tier):
         out.append({"prog": prog, "extra": extra, "variant": rng.randint(0, 29),
                     "ins_pos": rng.randint(1, len(prog)), "ins_var": rng.randint(0, max(0, nvars - 1)),
                     "ins_kind": rng.choice(["read", "read_sum"])})
+    out += _float_cases(rng, 400 if tier == "quick" else 6000)
     return out
 
 
+FLOAT_READS = ["argmax", "argmin", "np.argmax", "np.argmin", "max", "min", "sum", "mean", "sort", "cumsum", "tolist", "ravel", "str", "isnan", "nonzero"]
+ALIASES = ["self", "row", "all", "ravel", "buffer", "sel_rows", "fill"]
+
+
+def _float_cases(rng, n):
+    """float arrays: read-only operations (arg-extrema, extrema, sorts, ...) before a write of NaN / inf / a number that reaches the
+    cells THROUGH SOME OTHER OBJECT (a row view, the whole-array selection, the flat view, the constructor's buffer) or through the
+    array itself; whatever the alias semantics are, the observations afterwards must not depend on the reads"""
+    out = []
+    for _ in range(n):
+        rows = [[float(rng.randint(-9, 9)) for _ in range(rng.randint(1, 5))] for _ in range(rng.randint(1, 5))]
+        i = rng.randrange(len(rows)); j = rng.randrange(len(rows[i]))
+        out.append({"fl": {"rows": rows, "dtype": rng.choice(["float64", "float64", "float32"]),
+                           "before": [rng.choice(FLOAT_READS) for _ in range(rng.randint(1, 3))],
+                           "alias": rng.choice(ALIASES), "pos": [i, j], "val": rng.choice(["nan", "nan", "inf", "-inf", 100.0, -100.0]),
+                           "between": [rng.choice(FLOAT_READS) for _ in range(rng.randint(0, 2))],
+                           "second": rng.random() < 0.4}})
+    return out
+
+
+def _float_read(a, kind):
+    import numpy as np
+    if kind == "argmax": a.argmax(axis=-1)
+    elif kind == "argmin": a.argmin(axis=-1)
+    elif kind == "np.argmax": np.argmax(a, axis=-1)
+    elif kind == "np.argmin": np.argmin(a, axis=-1)
+    elif kind == "max": a.max(axis=-1)
+    elif kind == "min": a.min(axis=-1)
+    elif kind == "sum": a.sum(axis=-1); a.sum(axis=0)
+    elif kind == "mean": a.mean(axis=-1)
+    elif kind == "sort": np.sort(a, axis=-1)
+    elif kind == "cumsum": np.cumsum(a, axis=-1)
+    elif kind == "tolist": a.tolist()
+    elif kind == "ravel": a.ravel()
+    elif kind == "str": str(a); repr(a)
+    elif kind == "isnan": np.isnan(a); (a == a)
+    elif kind == "nonzero": a.nonzero()
+
+
+def _run_float(q, with_reads):
+    import numpy as np
+    from npstructures import RaggedArray
+    rows = q["rows"]
+    data = np.array([v for r in rows for v in r], dtype=q["dtype"])
+    a = RaggedArray(data, [len(r) for r in rows])
+    val = {"nan": float("nan"), "inf": float("inf"), "-inf": float("-inf")}.get(q["val"], q["val"])
+    i, j = q["pos"]
+    flat = sum(len(r) for r in rows[:i]) + j
+    def reads(kinds):
+        if with_reads:
+            for k in kinds:
+                try:
+                    _float_read(a, k)
+                except Exception:
+                    pass
+    def write(v):
+        al = q["alias"]
+        if al == "self": a[i, j] = v
+        elif al == "row": a[i][j] = v
+        elif al == "all":
+            b = a[...]; b[i, j] = v
+        elif al == "ravel": a.ravel()[flat] = v
+        elif al == "buffer": data[flat] = v
+        elif al == "sel_rows":
+            b = a[i:i + 1]; b[0, j] = v
+        elif al == "fill":
+            a[i:i + 1].fill(v)
+    reads(q["before"])
+    write(val)
+    reads(q["between"])
+    if q["second"]:
+        write(-val if val == val else 5.0)
+        reads(q["between"])
+    def c(x):
+        return [None if (isinstance(v, float) and v != v) else v for v in np.asarray(x, dtype=float).tolist()] if not isinstance(x, list) else x
+    obs = []
+    for f in (lambda: [[None if v != v else v for v in r] for r in a.tolist()], lambda: c(a.argmax(axis=-1)), lambda: c(a.argmin(axis=-1)),
+              lambda: c(a.max(axis=-1)), lambda: c(a.min(axis=-1)), lambda: c(np.sort(a, axis=-1).ravel()), lambda: c(np.cumsum(a, axis=-1).ravel())):
+        try:
+            obs.append(f())
+        except Exception as e:
+            obs.append({"k": "refuse"})
+    return obs
+
+
 def key(p):
+    if "fl" in p:
+        return engine.stable_hash(p)
     return engine.stable_hash([p["prog"], p["extra"]])
 
 
 def nontrivial(p):
+    if "fl" in p:
+        return True
     kinds = [s["s"] for s in p["prog"]]
     return "assign" in kinds and "select" in kinds
 
 
 def distribution(ps):
-    return {"statements": gens.hist(s["s"] for p in ps for s in p["prog"]),
+    fl = [p for p in ps if "fl" in p]
+    ps = [p for p in ps if "fl" not in p]
+    return {"float_alias_write_cases": len(fl), "float_alias_kinds": gens.hist(p["fl"]["alias"] for p in fl),
+            "float_written_values": gens.hist(str(p["fl"]["val"]) for p in fl),
+            "statements": gens.hist(s["s"] for p in ps for s in p["prog"]),
             "extra_read_kinds": gens.hist(k for p in ps for lst in p["extra"].values() for _, k in lst),
             "select_write_read_pattern": sum(1 for p in ps if [s["s"] for s in p["prog"]][:3] == ["new", "select", "assign"]),
             "program_length": gens.hist(min(len(p["prog"]), 16) for p in ps)}
 
 
 def run_impl(p):
+    if "fl" in p:
+        def h():
+            import numpy as np
+            with np.errstate(all="ignore"):
+                plain = _run_float(p["fl"], False)
+                withreads = _run_float(p["fl"], True)
+            # NaN cells are spelled None: list equality is then plain equality
+            return {"k": "obs", "equal": {"k": "py", "v": plain == withreads},
+                    "detail": {"k": "py", "v": None if plain == withreads else [plain, withreads]}}
+        return guarded(h)
     def g():
         extra = {int(k): [tuple(x) for x in v] for k, v in p["extra"].items()}
         plain = proggen.run_real(p["prog"], None, p.get("variant", 0))
@@ -105,6 +209,8 @@ def run_impl(p):
 
 
 def oracle(p):
+    if "fl" in p:
+        return {"k": "obs", "equal": {"k": "py", "v": True}}
     ref = proggen.run_ref(p["prog"])
     return {"k": "obs", "plain": {"k": "trace", "v": ref}, "with_reads": {"k": "trace", "v": ref}, "equal": {"k": "py", "v": True}}
 
@@ -116,6 +222,8 @@ def _ins_prog(p):
 
 
 def lean_request(p):
+    if "fl" in p:
+        return None
     # the Lean model runs the history with ONE extra read statement inserted; its observation is dropped afterwards
     from props import c06
     return {"op": "Heap.run", "prog": c06.lean_prog(_ins_prog(p))}
